@@ -1123,7 +1123,15 @@ class Interp(object):
             self.undecided('store at symbolic list index', node)
         if isinstance(v, SMap):
             kt = to_term(k, v.kty)
-            v.val = z3.Store(v.val, kt, self.term_of_value(val, v.vty))
+            if isinstance(val, (_ReplayColl, _LazyComp)) and \
+                    isinstance(v.vty, tuple) and v.vty[0] in ('list', 'map'):
+                # a collection the loop builds element by element: the map
+                # keeps an unconstrained collection id (over-approximation:
+                # the key is recorded, the contents are arbitrary)
+                vt = z3.Int(self.ex.fresh_name('opaque_cid'))
+            else:
+                vt = self.term_of_value(val, v.vty)
+            v.val = z3.Store(v.val, kt, vt)
             v.dom = z3.Store(v.dom, kt, z3.BoolVal(True))
             self.touched(v)
             return
@@ -1789,8 +1797,93 @@ class Interp(object):
         written = set(self.written_fields)
         db_writes = len(self.db.writes) if self.db is not None else 0
         next_ref = self.next_ref
+        # every other mutable container reachable from the frames: symbolic
+        # collections are updated in place (d[k] = v rewrites d.dom / d.val),
+        # so a change there cannot be merged -- it cancels the attempt
+        inplace = {}
+        sym_lens = dict((k, len(getattr(t[0], 'sym_items', None) or []))
+                        for k, t in dict_snaps.items())
+
+        def attrs_of(v):
+            if hasattr(v, '__dict__'):
+                return dict(vars(v))
+            return dict((n, getattr(v, n)) for n in type(v).__slots__
+                        if hasattr(v, n))
+
+        def children(v):
+            if isinstance(v, (VList, VSet)):
+                return list(v.items)
+            if type(v).__name__ in ('VDict', 'JsonObj'):
+                return list(v.items.values())
+            if isinstance(v, tuple):
+                return list(v)
+            if isinstance(v, (SList, SSet, SMap, _NestedView)):
+                return [x for x in attrs_of(v).values()
+                        if isinstance(x, (SList, SSet, SMap, tuple))]
+            return []
+
+        def visit(v, depth):
+            if id(v) in inplace:
+                return
+            top_dict = depth == 0 and id(v) in dict_snaps
+            if isinstance(v, (SList, SSet, SMap, _NestedView, VList, VSet)) or \
+                    (type(v).__name__ in ('VDict', 'JsonObj') and not top_dict):
+                at = attrs_of(v)
+                items = at.get('items')
+                inplace[id(v)] = (v, at, None if items is None else
+                                  (dict(items) if isinstance(items, dict)
+                                   else list(items)))
+            if depth < 4:
+                for x in children(v):
+                    visit(x, depth + 1)
+        for (fr, loc) in snap_locals.values():
+            for v in loc.values():
+                visit(v, 0)
+        for v in meta.values():
+            visit(v, 1)
+
+        def inplace_changed():
+            for k, t in dict_snaps.items():
+                if len(getattr(t[0], 'sym_items', None) or []) != sym_lens[k]:
+                    return True
+            for (v, at, items) in inplace.values():
+                cur = attrs_of(v)
+                if set(cur) != set(at) or any(cur[k] is not at[k] for k in at):
+                    return True
+                if items is not None:
+                    now = cur['items']
+                    if len(now) != len(items):
+                        return True
+                    if isinstance(items, dict):
+                        if any(k not in now or now[k] is not items[k]
+                               for k in items):
+                            return True
+                    elif isinstance(now, list):
+                        if any(x is not y for x, y in zip(now, items)):
+                            return True
+                    elif set(map(id, now)) != set(map(id, items)):
+                        return True
+            return False
 
         def rollback():
+            for k, t in dict_snaps.items():
+                si = getattr(t[0], 'sym_items', None)
+                if si is not None:
+                    del si[sym_lens[k]:]
+            for (v, at, items) in inplace.values():
+                for n, x in at.items():
+                    if getattr(v, n, _MISSING) is not x:
+                        setattr(v, n, x)
+                if items is not None:
+                    cont = at['items']
+                    if isinstance(cont, dict):
+                        cont.clear()
+                        cont.update(items)
+                    elif isinstance(cont, list):
+                        cont[:] = items
+                    else:
+                        cont.clear()
+                        cont.update(items)
             for (fr, loc) in snap_locals.values():
                 fr.locals.clear()
                 fr.locals.update(loc)
@@ -1825,7 +1918,8 @@ class Interp(object):
                    self.written_fields != written or self.next_ref != next_ref or
                    (self.db is not None and len(self.db.writes) != db_writes) or
                    any(self.heap.get(k) is not v for k, v in heap.items()) or
-                   len(self.heap) != len(heap) or len(self.meta) != len(meta)):
+                   len(self.heap) != len(heap) or len(self.meta) != len(meta) or
+                   inplace_changed()):
             ok = False
         if not ok:
             rollback()
@@ -2294,6 +2388,8 @@ class Interp(object):
             self.ex.assume(f)
 
     def havoc_value(self, v, nm):
+        if isinstance(v, Native) and hasattr(v, 'havoc'):
+            return v.havoc(self, nm)
         if isinstance(v, Sym):
             return self.fresh(nm, v.ty, nullable=v.none is not None)
         if isinstance(v, bool):
